@@ -83,7 +83,7 @@ pub fn scripted(seed: u64, len: usize, adversarial: bool) -> Script {
             0..=17 => random_submit(&mut rng),
             18..=37 => Step::Service { cap: pick(&mut rng, &caps) },
             38..=49 => Step::WriteDone {},
-            50..=61 => { if adversarial && rng.gen_bool(0.2) { Step::Ack { which: pick(&mut rng, &["oldest", "newest", "1"]).to_string(), how: pick(&mut rng, &["wrongtype", "unknownid", "dup", "wrongcount", "fail"]).to_string() } } else { Step::Ack { which: if rng.gen_bool(0.85) { "oldest".into() } else { "newest".into() }, how: if rng.gen_bool(0.1) { "fail".into() } else { "normal".into() } } } }
+            50..=61 => { if adversarial && rng.gen_bool(0.2) { Step::Ack { which: pick(&mut rng, &["oldest", "newest", "1"]).to_string(), how: pick(&mut rng, &["wrongtype", "unknownid", "dup", "wrongcount", "fail"]).to_string() } } else { Step::Ack { which: if rng.gen_bool(0.85) { "oldest".into() } else { "newest".into() }, how: if rng.gen_bool(0.1) { "fail".into() } else if rng.gen_bool(0.1) { "nomatch".into() } else { "normal".into() } } } }
             62..=66 => { if open { open = false; Step::Close {} } else { open = true; Step::Open { deadline: pick(&mut rng, &[50, 1000, 30000]) } } }
             67..=72 => random_connack(&mut rng, adversarial),
             73..=77 => Step::InPub { qos: pick(&mut rng, &[0, 1, 2, 2]), pid: pick(&mut rng, &[-1, -1, -2, 3]), dup: rng.gen_bool(0.3), alias: if adversarial { pick(&mut rng, &["none", "none", "bind", "reuse", "unknown", "zero", "range"]).to_string() } else { pick(&mut rng, &["none", "none", "bind", "reuse"]).to_string() }, topic: pick(&mut rng, &["in1", "in2"]).to_string() },
@@ -95,7 +95,7 @@ pub fn scripted(seed: u64, len: usize, adversarial: bool) -> Script {
             93 => Step::Drain { cap: pick(&mut rng, &caps) },
             94 => { if adversarial { pick(&mut rng, &[Step::Garbage { n: 3 }, Step::Auth {}, Step::ServerDisconnect {}, Step::Raw { hex: "20020000".into(), legal: false, name: String::new() }]) } else { Step::Snapshot {} } }
             95 => Step::Disconnect {},
-            96 => { if rng.gen_bool(0.3) { Step::Reset {} } else { Step::Snapshot {} } }
+            96 => { if rng.gen_bool(0.3) { Step::Reset {} } else if rng.gen_bool(0.5) { Step::Cursor { v: pick(&mut rng, &[1u16, 2, 3, 65535]) } } else { Step::Snapshot {} } }
             _ => Step::Open { deadline: 30000 },
         };
         if let Step::Open { .. } = s { open = true; }
@@ -172,8 +172,10 @@ pub fn cycles(seed: u64, n_cycles: usize) -> Script {
             steps.push(match r {
                 0..=39 => Step::Service { cap: pick(&mut rng, &tiny) },
                 40..=59 => Step::Flush {},
-                60..=79 => Step::Ack { which: "oldest".into(), how: "normal".into() },
-                80..=86 => Step::InPub { qos: pick(&mut rng, &[1, 2]), pid: -1, dup: false, alias: "none".into(), topic: "in1".into() },
+                60..=79 => Step::Ack { which: "oldest".into(), how: if rng.gen_bool(0.1) { "nomatch".into() } else { "normal".into() } },
+                // the allocator's cursor next to the identifiers of the oldest (possibly still unacknowledged) operations, or about to wrap
+                80..=81 => Step::Cursor { v: pick(&mut rng, &[1u16, 1, 2, 3, 65534, 65535]) },
+                82..=86 => Step::InPub { qos: pick(&mut rng, &[1, 2]), pid: -1, dup: false, alias: "none".into(), topic: "in1".into() },
                 87..=90 => Step::InPubrel { pid: -1 },
                 91..=95 => submit(&mut rng),
                 _ => Step::Advance { ms: pick(&mut rng, &[1, 50, 999, 1000]) },
@@ -240,6 +242,124 @@ pub fn races(seed: u64) -> Script {
         }
     }
     steps.push(Step::Snapshot {});
+    steps.push(Step::Reset {});
+    Script { cfg, steps }
+}
+
+/// Packets at the server's limits: the CONNACK announces a small maximum packet size (and topic aliases, a maximum
+/// QoS, retain availability); publishes are sized to land a few bytes below, at and above the limit - with and
+/// without topic aliases, first use and reuse of an alias - so that "validated size" and "size on the wire" must agree.
+pub fn limits(seed: u64) -> Script {
+    let mut rng = StdRng::seed_from_u64(seed);
+    let mut cfg = random_cfg(&mut rng, false);
+    cfg.src = format!("S2:limits:{}", seed);
+    cfg.ver = 5;
+    cfg.resolver = pick(&mut rng, &["lru:2", "lru:2", "manual", "null", "lru:1"]).to_string();
+    cfg.ka = 0;
+    cfg.ack_delay = 0;
+    let mps: i64 = pick(&mut rng, &[24, 40, 64, 100, 130, 200]);
+    let mut steps = vec![Step::Open { deadline: 30000 }, Step::Drain { cap: 4096 },
+        Step::Connack { sp: false, rm: -1, ka: -1, tam: pick(&mut rng, &[-1, 1, 2, 2]), mqos: pick(&mut rng, &[-1, -1, 1]), rc: 0, ret: pick(&mut rng, &[-1, -1, 0]), wild: -1, subid: -1, shared: -1, mps, acid: String::new() }];
+    for _ in 0..rng.gen_range(4..12) {
+        let qos: u8 = pick(&mut rng, &[0, 0, 1, 2]);
+        let topic = pick(&mut rng, &["t1", "t1", "t2", "t3"]).to_string();
+        // PUBLISH (MQTT 5): 1 + remaining-length bytes + 2 + topic + [2 packet id] + 1 property length [+ 3 alias] + payload
+        let overhead = 1 + 1 + 2 + topic.len() as i64 + if qos > 0 { 2 } else { 0 } + 1;
+        let delta: i64 = rng.gen_range(-7..8);
+        let size = (mps - overhead + delta).max(0) as usize;
+        steps.push(Step::Submit { kind: "pub".into(), qos, topic, tmo: -1, retain: rng.gen_bool(0.1), size, alias: pick(&mut rng, &[0, 1, 1, 2]), entries: 1, variant: String::new() });
+        if rng.gen_bool(0.6) { steps.push(Step::Drain { cap: pick(&mut rng, &[16usize, 64, 4096]) }); }
+        if rng.gen_bool(0.4) { steps.push(Step::Ack { which: "oldest".into(), how: "normal".into() }); }
+    }
+    steps.push(Step::Quiesce {});
+    steps.push(Step::Reset {});
+    Script { cfg, steps }
+}
+
+/// Retransmission interrupted again and again: a handful of QoS 1 / 2 publishes in flight (some already answered with
+/// PUBREC), the connection lost, the session resumed, the retransmission cut short by a small socket buffer and the
+/// connection lost once more - one to three times - before a last resumed connection lets everything finish.
+/// Order, identifiers and DUP flags of what is retransmitted must not depend on how often it was interrupted.
+pub fn interrupted(seed: u64) -> Script {
+    let mut rng = StdRng::seed_from_u64(seed);
+    let mut cfg = random_cfg(&mut rng, false);
+    cfg.src = format!("S2:interrupted:{}", seed);
+    cfg.ka = 0;
+    cfg.ack_delay = 0;
+    cfg.retries = -1;
+    cfg.policy = pick(&mut rng, &["All", "All", "Ack", "Q1", "None"]).to_string();
+    let connack = |sp: bool, rm: i64| Step::Connack { sp, rm, ka: -1, tam: -1, mqos: -1, rc: 0, ret: -1, wild: -1, subid: -1, shared: -1, mps: -1, acid: String::new() };
+    let mut steps = vec![Step::Open { deadline: 30000 }, Step::Drain { cap: 4096 }, connack(false, -1)];
+    let n = rng.gen_range(2..7);
+    for _ in 0..n {
+        steps.push(Step::Submit { kind: "pub".into(), qos: pick(&mut rng, &[1, 1, 2, 2, 0]), topic: "t1".into(), tmo: -1, retain: false, size: pick(&mut rng, &[0, 10, 30]), alias: 0, entries: 1, variant: String::new() });
+    }
+    if rng.gen_bool(0.3) { steps.push(Step::Submit { kind: "sub".into(), qos: 1, topic: "t1".into(), tmo: -1, retain: false, size: 0, alias: 0, entries: 1, variant: String::new() }); }
+    steps.push(Step::Drain { cap: 4096 });
+    for _ in 0..rng.gen_range(0..n) { steps.push(Step::Ack { which: pick(&mut rng, &["oldest", "newest"]).to_string(), how: "normal".into() }); }
+    if rng.gen_bool(0.5) { steps.push(Step::Drain { cap: 4096 }); }
+    for _ in 0..rng.gen_range(1..4) {
+        steps.push(Step::Close {});
+        steps.push(Step::Open { deadline: 30000 });
+        steps.push(Step::Drain { cap: 4096 });
+        steps.push(connack(rng.gen_bool(0.9), pick(&mut rng, &[-1, -1, 2])));
+        // the socket takes a few bytes: one or two packets whole, the next one in part
+        for _ in 0..rng.gen_range(1..3) {
+            steps.push(Step::Service { cap: rng.gen_range(5..70) });
+            if rng.gen_bool(0.5) { steps.push(Step::Flush {}); }
+        }
+        if rng.gen_bool(0.3) { steps.push(Step::Ack { which: "oldest".into(), how: "normal".into() }); }
+        if rng.gen_bool(0.2) { steps.push(Step::Submit { kind: "pub".into(), qos: pick(&mut rng, &[1, 2]), topic: "t1".into(), tmo: -1, retain: false, size: 0, alias: 0, entries: 1, variant: String::new() }); }
+    }
+    steps.push(Step::Close {});
+    steps.push(Step::Open { deadline: 30000 });
+    steps.push(Step::Drain { cap: 4096 });
+    steps.push(connack(rng.gen_bool(0.9), -1));
+    steps.push(Step::Quiesce {});
+    steps.push(Step::Reset {});
+    Script { cfg, steps }
+}
+
+/// Identifier wrap-around next to live identifiers, across reconnects: a few acknowledged operations in flight, a reconnect
+/// (session resumed or lost), then the allocator's cursor placed on or just before the identifiers still in use (or at
+/// 65534 from the start, so that it wraps by itself) and more operations submitted.  Every identifier on the wire must
+/// be free at that moment, whatever the cycle did to the allocation table.
+pub fn wrapnear(seed: u64) -> Script {
+    let mut rng = StdRng::seed_from_u64(seed);
+    let mut cfg = random_cfg(&mut rng, false);
+    cfg.src = format!("S2:wrapnear:{}", seed);
+    cfg.ka = 0;
+    cfg.ack_delay = 0;
+    cfg.retries = -1;
+    cfg.policy = pick(&mut rng, &["All", "All", "Ack", "Q1"]).to_string();
+    let connack = |sp: bool| Step::Connack { sp, rm: -1, ka: -1, tam: -1, mqos: -1, rc: 0, ret: -1, wild: -1, subid: -1, shared: -1, mps: -1, acid: String::new() };
+    let acked = |rng: &mut StdRng| -> Step {
+        let kind = pick(rng, &["pub", "pub", "pub", "sub", "unsub"]).to_string();
+        Step::Submit { kind, qos: pick(rng, &[1, 1, 2]), topic: "t1".into(), tmo: -1, retain: false, size: 0, alias: 0, entries: 1, variant: String::new() }
+    };
+    let mut steps = Vec::new();
+    let natural = rng.gen_bool(0.3);
+    if natural { steps.push(Step::Cursor { v: pick(&mut rng, &[65533u16, 65534, 65535]) }); }
+    steps.push(Step::Open { deadline: 30000 });
+    steps.push(Step::Drain { cap: 4096 });
+    steps.push(connack(false));
+    let k = rng.gen_range(1..4);
+    for _ in 0..k { steps.push(acked(&mut rng)); }
+    steps.push(Step::Drain { cap: 4096 });
+    if rng.gen_bool(0.3) { steps.push(Step::Ack { which: pick(&mut rng, &["oldest", "newest"]).to_string(), how: "normal".into() }); }
+    for _ in 0..rng.gen_range(1..3) {
+        steps.push(Step::Close {});
+        steps.push(Step::Open { deadline: 30000 });
+        steps.push(Step::Drain { cap: 4096 });
+        steps.push(connack(rng.gen_bool(0.5)));
+        if rng.gen_bool(0.8) { steps.push(Step::Drain { cap: 4096 }); }
+        if !natural || rng.gen_bool(0.5) { steps.push(Step::Cursor { v: if natural { pick(&mut rng, &[65534u16, 65535]) } else { pick(&mut rng, &[1u16, 1, 2, 3, 65535]) } }); }
+        for _ in 0..rng.gen_range(1..4) { steps.push(acked(&mut rng)); }
+        steps.push(Step::Drain { cap: 4096 });
+        for _ in 0..rng.gen_range(0..3) { steps.push(Step::Ack { which: pick(&mut rng, &["oldest", "newest"]).to_string(), how: "normal".into() }); }
+        steps.push(Step::Drain { cap: 4096 });
+    }
+    steps.push(Step::Quiesce {});
     steps.push(Step::Reset {});
     Script { cfg, steps }
 }
